@@ -1446,14 +1446,27 @@ def run(R):
                     "iterator position, iterator start/next, ls, full tree walks, clone (flags 0..3)/free and re-open on generated ELF "
                     "(with PRSTATUS + VMCOREINFO notes), diskdump and garbage files; keys: all global keys, addrxlat options, "
                     "file.set.N, VMCOREINFO lines and derived keys incl. hash-bucket collisions of prefix-related keys, cpu.N from files; "
+                    "scripted steps inside the histories: file.set.number grown with the K-th allocation failing (every slot, every attribute of "
+                    "a slot) then probed and grown again; linux.uts.release set and linux.version_code read FIRST through a reference / "
+                    "sub-reference / iterator position / path; cpu.number set by the application, a file opened, the value read back; "
+                    "before the histories: first read of every attribute of each freshly opened file by iterator position vs by path; "
                     "non-trivial = distinct (operation, observation) pairs" % (len(hists), nops),
                traces_validated_against_impl=len(model), correspondence_first_diff=mism,
                op_kinds=opk, observation_kinds=dict(sorted(kinds.items(), key=lambda kv: -kv[1])[:40]),
                files=[os.path.basename(f) + ":" + fileinfo[i][0] for i, f in enumerate(files)],
                samples=[dict(op=hists[0].ops[i][0][:80], observed=hists[0].obs[i][:80]) for i in (1, 5, 9) if i < len(hists[0].obs)
                         and hists[0].ops[i][2] != "quiet"][:3])
-    return "proof", cov, ["keys with unmodelled hooks (arch.name, arch.page_size/shift, cache.size, linux.uts.release/machine, "
-                          "linux.version_code, xen.version.*, file.fd, file.set.N.fd) are read but never set by the generator (C14)",
+    return "proof", cov, ["keys with unmodelled hooks (arch.name, arch.page_size/shift, cache.size, linux.uts.machine, "
+                          "xen.version.*, file.fd, file.set.N.fd) are read but never set by the generator (C14); linux.uts.release is set "
+                          "with release strings that parse (a[.b[.c[suffix]]]); the model stores the derived linux.version_code at once, the "
+                          "implementation computes it when a getter asks",
+                          "allocation failure is modelled for file.set.number only (nfilesoom: the K-th allocation of the call fails; the "
+                          "slot and the attribute it hits are derived from the measured number of allocations per slot, the last two "
+                          "of a slot being `fd` and `name`)",
+                          "implementation-only (no model): the first-read comparison of iterator position and path on freshly opened files "
+                          "(CPU registers derived from PRSTATUS, page maps, version codes set by a probe)",
+                          "with cpu.number set by the application only files without CPU notes are opened (the notes would be numbered "
+                          "from that value on)",
                           "contexts with a private dictionary do not open files or create dynamic keys (see REPORT_C13.txt)",
                           "references and iterator positions are not used after the attribute they point to was deallocated",
                           "one thread"]
